@@ -59,6 +59,8 @@ structure State where
   sysfeed : Bool := false
   /-- c09: arbiters stopped and joined, in this order, once all of them exist -/
   retire : List Nat := []
+  /-- c09: the system thread has that many always-runnable local tasks (no effect at message level) -/
+  sysload : Bool := false
   /-- c09: the arbiter whose process-wide number equals the system id (ids are arbitrary in the model) -/
   align : Option Nat := none
   /-- c10: number of command targets (arbiters incl. the system arbiter) -/
@@ -469,7 +471,7 @@ def originOk (st : State) (o : String) (foreignOk : Bool) : Bool :=
   o == "sys-pre" || o == "sys-task" || (foreignOk && o == "foreign") ||
     (match prefixedNat? "arb:" o with
      | some k => k < st.kinds.length && st.kinds[k]? != some "early" && st.kinds[k]? != some "done"
-         && st.kinds[k]? != some "backlog" && !st.retire.contains k
+         && !((st.kinds.getD k "").startsWith "backlog") && !st.retire.contains k
      | none => false)
 
 /-- at most three entries; an entry on the system thread in front of `run` cannot be made to wait for the
@@ -508,7 +510,9 @@ def step (st : State) (line : String) : State × String :=
     | _ => (ws, [])
   match st.proto, ws with
   | 9, ["arb", k] =>
-    if ["early", "dropped", "running", "busy", "done", "feeding", "backlog"].contains k && st.kinds.length < 6
+    -- `backlog:N`: N commands queued behind the held task
+    let backlogN := match (stripPre "backlog:" k).bind nat? with | some q => 1 ≤ q && q ≤ 1600 | none => false
+    if (["early", "dropped", "running", "busy", "done", "feeding", "backlog"].contains k || backlogN) && st.kinds.length < 6
         && st.entries.isEmpty && st.align.isNone && st.retire.isEmpty then
       ({ st with kinds := st.kinds ++ [k] }, s!"ok a{st.kinds.length}")
     else (st, "bad-op")
@@ -520,6 +524,10 @@ def step (st : State) (line : String) : State × String :=
       if ks.isEmpty || !st.retire.isEmpty || !st.entries.isEmpty || !ks.all live || ks.eraseDups.length != ks.length then
         (st, "bad-op")
       else ({ st with retire := ks }, "ok")
+    | none => (st, "bad-op")
+  | 9, ["sysload", q] =>
+    match nat? q with
+    | some q => if q ≤ 2000 && !st.sysload && st.entries.isEmpty then ({ st with sysload := true }, "ok") else (st, "bad-op")
     | none => (st, "bad-op")
   | 9, ["sysfeed"] =>
     if st.sysfeed || !st.entries.isEmpty then (st, "bad-op") else ({ st with sysfeed := true }, "ok")
@@ -547,7 +555,9 @@ def step (st : State) (line : String) : State × String :=
       | "nr" => some (.new "running") | "nb" => some (.new "busy") | "nf" => some (.new "feeding") | "nk" => some (.new "backlog")
       | "nd" => some (.new "dropped") | "ne" => some (.new "early")
       | "x" => some .sysArbStop
-      | _ => ((stripPre "s" it).bind int?).map .stop
+      | _ => match (stripPre "nk:" it).bind nat? with
+        | some q => if 1 ≤ q && q ≤ 1600 then some (.new "backlog") else none
+        | none => ((stripPre "s" it).bind int?).map .stop
     match originOk st o true, acts? with
     | true, some acts =>
       let e : Entry := { origin := o, actions := acts, seq := seq }
